@@ -232,7 +232,7 @@ func (t *Tree) parseInnerExpr() (Expr, error) {
 	case tokenHashOpen:
 		els := []*KeyValueExpr{}
 		for {
-			nxt := t.peek()
+			nxt := t.peekNonSpace()
 			if nxt.tokenType == tokenHashClose {
 				t.next()
 				break
@@ -250,7 +250,7 @@ func (t *Tree) parseInnerExpr() (Expr, error) {
 				return nil, err
 			}
 			els = append(els, NewKeyValueExpr(keyExpr, valExpr, nxt.Pos))
-			nxt = t.peek()
+			nxt = t.peekNonSpace()
 			if nxt.tokenType == tokenPunctuation {
 				_, err := t.expectValue(tokenPunctuation, ",")
 				if err != nil {
@@ -263,7 +263,7 @@ func (t *Tree) parseInnerExpr() (Expr, error) {
 	case tokenArrayOpen:
 		els := []Expr{}
 		for {
-			nxt := t.peek()
+			nxt := t.peekNonSpace()
 			if nxt.tokenType == tokenArrayClose {
 				t.next()
 				break
@@ -273,7 +273,7 @@ func (t *Tree) parseInnerExpr() (Expr, error) {
 				return nil, err
 			}
 			els = append(els, expr)
-			nxt = t.peek()
+			nxt = t.peekNonSpace()
 			if nxt.tokenType == tokenPunctuation {
 				_, err := t.expectValue(tokenPunctuation, ",")
 				if err != nil {
@@ -361,7 +361,7 @@ func (t *Tree) parseInnerExpr() (Expr, error) {
 func (t *Tree) parseFunc(name *NameExpr) (Expr, error) {
 	var args []Expr
 	for {
-		switch tok := t.peek(); tok.tokenType {
+		switch tok := t.peekNonSpace(); tok.tokenType {
 		case tokenEOF:
 			return nil, newUnexpectedEOFError(tok)
 
